@@ -78,8 +78,12 @@ def run(ctx):
     shutil.rmtree(wd, ignore_errors=True)
     ind = mkdir(os.path.join(wd, "in"))
     inputs = []       # (tag, path, driver)
-    for f in sorted(fam, key=lambda f: (f["table"], f["n"])):
-        p = os.path.join(ind, "b_%s_%d.p21" % (f["table"].replace(":", "_"), f["n"]))
+    for f in sorted(fam, key=lambda f: (f["table"], f["n"], f.get("parts", []))):
+        p = os.path.join(ind, "b_%s_%d%s.p21" % (f["table"].replace(":", "_"), f["n"], "_" + "_".join(f["parts"]) if "parts" in f else ""))
+        if f["table"] == "parts":
+            open(p, "w").write(HEAD + "#2=(%s);\n#3=TGT(3);\n" % "".join(x + "()" for x in f["parts"]) + TAIL)
+            inputs.append(("boundary:parts:%s" % "+".join(f["parts"]), p, drv))
+            continue
         txt = boundary_file(f["table"], f["n"])
         if txt is None:        # not a file: a path that does not exist / a directory
             p = os.path.join(ind, "nosuch.p21") if f["table"].endswith("missing_file") else mkdir(os.path.join(ind, "adir.p21"))
